@@ -208,7 +208,6 @@ func (hh *vmHH) checkContents() {
 // the same key; every later operation on them behaves as the model says.
 func VerifMemStaleHandles() {
 	capacity := verif.Uint64("capacity")
-	vmAssumeNoWrap(capacity)
 	hh := &vmHH{vmH: vmNew(capacity, 2)}
 	hc := hh.create(0, 2)
 	verif.Assume(hc != nil)
